@@ -89,7 +89,7 @@ PROPS = {
                        "logs are C13."),
         "lean": ["Pdb.Props.C02", "Pdb.Props.C02Real", "Pdb.Props.C01b", "Pdb.Props.C02x", "Pdb.Proofs.Order"],
         "harness": [{"cmd": "p1", "quick": 250, "thorough": 15000},
-                    {"cmd": "c02x", "quick": 450, "thorough": 8000}],
+                    {"cmd": "c02x", "quick": 450, "thorough": 4000, "timeout": 7200}],
         "rule": P1_RULE,
         "assumptions": [A_HASH, A_COMPRESS, P2_GAP, "crash instants on the implementation: step boundaries of the stepping API with the unsynced log tail cut at a seeded length"],
     },
@@ -171,24 +171,46 @@ PROPS = {
                     "libc symbol interposition in harness/src/interpose.rs (errno injection, no hook in /repo)"],
     },
     "C13": {
-        "level_text": ("Lean theorems C13_parse_encode / C13_total / C13_only_valid_consecutive / C13_file_order / C13_nothing_after_first_invalid / "
-                       "C13_whole_or_nothing / C13_prefix_not_older_partial over a byte-level model of the write-ahead log and of replay at open, for ALL "
-                       "byte strings and file sets; full-strength prefix statement kept as C13_prefix_not_older with a proved counterexample (F3b). The model "
-                       "is tied to the code by running Db::open on damaged copies of real log directories and comparing last_enacted and the table "
-                       "configuration after replay (hooks) with the compiled model, plus an independent prefix oracle."),
-        "level_note": ("Trusted: Lean kernel; CRC-32 as a function of the bytes (A-crc); hooks Db::verif_last_enacted / verif_table_cfg; table contents are "
-                       "tied by the oracle only (the model decides which records are accepted, not what they write). Known findings F3b, F3c, F3d are "
-                       "reported as KNOWN-FINDING."),
+        "level_text": ("Lean theorems C13_open_start / C13_parse_encode / C13_total / C13_fuel_adequate / C13_only_valid_consecutive / C13_file_"
+                       "order / C13_nothing_after_first_invalid / C13_whole_or_nothing / C13_prefix_not_older_partial over a byte-level model of"
+                       " the write-ahead log and of replay at open that is literal about failure: every operation of the replay path that can pa"
+                       "nic (slice / Vec index, unwrap, panic!, debug-build overflow, raw-pointer write outside the mapping) is a branch to `.pa"
+                       "nic`, every `?` of the apply pass a branch to `.applyFailed`, exhausted fuel the separate outcome `.outOfFuel`; C13_tota"
+                       "l: for ALL byte strings and file sets, in every configuration without a table file above MAX_INDEX_BITS (Cfg.Sane), none"
+                       " of the three occurs; C13_fuel_adequate: `.outOfFuel` never, without any hypothesis; the apply pass is modelled on the b"
+                       "ytes (second read) and proved to succeed and to do exactly one effect per validated action (enactPass_of_validatePass). "
+                       "All replay theorems are about replayOpen, i.e. with the start id Db::open derives from the first header of the oldest su"
+                       "rviving file; the prefix statement is proved under exactly two extra hypotheses (OldestSurvives = not F3c, AppliedIntact"
+                       " = not F3b) with one proved counterexample for each (C13_prefix_counterexample_F3c / _F3b). The model is tied to the cod"
+                       "e by running Db::open on damaged copies of real log directories and comparing last_enacted, the table configuration AND "
+                       "the table contents after replay (all non-empty index entries, all probed value slots) with the compiled model, plus an i"
+                       "ndependent prefix / table-configuration oracle."),
+        "level_note": ("Trusted: Lean kernel; CRC-32 as a function of the bytes (A-crc); hooks verif_last_enacted / verif_table_cfg / verif_dump"
+                       " / verif_table_state / verif_table_entry; the audit that the panic-site table in the header of Pdb/Model/Wal.lean is com"
+                       "plete (each listed site is a branch of the model, the table is the audited claim); Cfg.Sane is an assumption on the tabl"
+                       "e FILES found at open (Column::open accepts files named up to 64 index bits), not on the log; abstraction A-skip in the "
+                       "prefix theorem (abstract tables keep the locations of dropped tables; the concrete contents with skips and drops are wha"
+                       "t `replaytab` compares). Not modelled: resource exhaustion driven by a record with a valid checksum (file growth by INSE"
+                       "RT_VALUE index, index files up to 2^58 bytes, ref-count cache scan), what happens after replay inside Db::open (init_tab"
+                       "le_data: findings F3e, fixed by 75ecce0). Known findings F3b, F3c, F3d."),
         "lean": ["Pdb.Props.C13", "Pdb.Proofs.GenBits"],
         "harness": [{"cmd": "c13", "quick": 250, "thorough": 500, "max_search": 3000, "timeout": 3000}],
-        "rule": ("fixed cases first (41 crafted log files incl. every panic trigger of the audit and accepted/rejected controls; 9 scripted scenarios of the "
-                 "findings), then generated cases from one SplitMix64 state: 1..3 columns (plain hash, rc hash, btree, passive multitree), 2..10 "
-                 "transactions, commit+process per transaction with random flush / enact / clean so that reclaimed, applied-unreclaimed, flushed and "
-                 "appending log files coexist; per image an undamaged control and ~13 damages (truncation, single / double bit flip, burst, garbage / stale "
-                 "record / valid empty record appended, file duplicated (+damaged), renamed, exchanged, deleted, zero-length, sub-header, extra short file, "
-                 "earlier-generation log); 1 case in 8 (quick) is a tiny history swept exhaustively (every truncation offset <= 300 B, every bit <= 200 B); "
-                 "thorough: 4x samples, every offset <= 64 KiB, every bit <= 2 KiB in sweep cases; distinct = SHA-1 of the ops; non-trivial = >= 2 "
-                 "transactions and a log file with records"),
+        "rule": ("c13: fixed cases first. 41 corpus byte patterns (replaylast). 15 scripted scenarios: F3b, F3c, F3d, and 6 index-growth s"
+                 "cenarios (growth record pending, cut or accepted, DROP_TABLE record pending, accepted or bit-flipped, logs replayed over"
+                 " a dropped table, a gap before a reindex record). 5 crafted valid-checksum records (header / free-list attacks on a mult"
+                 "itree value table, drop of a never created index), each in a child process with a 20 s limit, expectation no crash. Then"
+                 " generated cases: 1-3 columns plain/rc/btree/multitree, lz4 on one quarter, 2-10 commit records with random flush / enac"
+                 "t / clean; 1 in 8 are tiny sweep cases with every truncation offset and every bit; 1 non-tiny case in 4 is growth mode: "
+                 "column 0 with identity hash, 66-90 keys in one index chunk filled by commits of 5-16 keys, the 65th grows the index 16->"
+                 "17 (in half of them on to 18 by the reindex record), process_reindex records (moved entries + DROP_TABLE) count as recor"
+                 "ds that are no transactions, the image is taken at a drawn stage of the growth. About 15 sampled damages per image plus "
+                 "an undamaged control: truncation, bit flips, bursts, appended garbage / stale record / valid empty record, file duplicat"
+                 "e, rename, reorder, delete, stale-generation file. Correspondence op replaytab: table content before replay as cells (al"
+                 "l non-empty index entries plus probed value slots) against last / cfg / index digest / value-slot digest after Db::open;"
+                 " replaylast for the corpus, failed opens and cell lists above 64 KiB. Independent oracle: no panic; open succeeds; conte"
+                 "nt equals a prefix of the logged records no shorter than the enacted count; table configuration equals the one computed "
+                 "from the accepted records' original encodings (more bits than that = F3d, any other difference = TABLE-CONFIGURATION-MIS"
+                 "MATCH); a further commit and a reopen keep the content."),
         "assumptions": ["A-crc: CRC-32 is a function of the record bytes; accepted records are genuine (no forged checksum-valid records except the empty controls)"],
         "trusted": ["hooks db.rs verif_last_enacted / verif_table_cfg, column.rs verif_table_cfg (cfg pdb_verif)"],
     },
@@ -626,7 +648,7 @@ PROPS = {
         "lean": ["Pdb.Props.C14", "Pdb.Props.C14Dump", "Pdb.Props.C14DumpRc"],
         "harness": [{"cmd": "c09", "quick": 48, "thorough": 600, "timeout": 3000},
                     {"cmd": "c10", "quick": 100, "thorough": 1500},
-                    {"cmd": "c02x", "quick": 150, "thorough": 3000}],
+                    {"cmd": "c02x", "quick": 150, "thorough": 2000, "timeout": 7200}],
         "level_text": ("Lean theorems: IndexInv / SlotInvAbs / NoLeak preserved over all histories (C14_index_inv_preserved, C14_no_leak), "
                        "C14_no_misattribution, C14_remove_returns_slot, C14_fill_mark_moves_only_when_no_free_slot, C14_iter_values_exact on the abstract "
                        "value tables of the index-layer model; the byte-level slot invariant (free list acyclic / in range, chains disjoint, live + free = "
